@@ -252,6 +252,7 @@ def run(pid, tier, seed, replay_only=None):
     # ---- classify ----------------------------------------------------------
     failed = []
     discharged = 0
+    exit_covers = {}
     by_backend = {}
     slow = []
     covers_ok = 0
@@ -260,8 +261,17 @@ def run(pid, tier, seed, replay_only=None):
     for ob in obs:
         if ob.expect == 'sat':
             r = res.get(ob.id)
-            if r is None or r['verdict'] in ('sat', 'unknown'):
-                covers_ok += 1      # unknown on a cover: not a proof of vacuity
+            ok_cover = r is None or r['verdict'] in ('sat', 'unknown')      # unknown on a cover: not a proof of vacuity
+            if 'reach:normal-exit' in ob.id:
+                # an exit path whose hypotheses are unsatisfiable is merely an infeasible path the (incomplete) pruning kept;
+                # the alarm is a function ALL of whose sampled exits are unsatisfiable (contradictory axioms / contracts)
+                e = exit_covers.setdefault(ob.fn, [0, 0])
+                e[0 if ok_cover else 1] += 1
+                if ok_cover:
+                    covers_ok += 1
+                continue
+            if ok_cover:
+                covers_ok += 1
             else:
                 covers_bad.append(ob.id)
             continue
@@ -280,6 +290,9 @@ def run(pid, tier, seed, replay_only=None):
                 slow.append({'id': ob.id, 'secs': r['secs'], 'backend': r['backend']})
         else:
             failed.append((ob, r))
+    for fnq, (n_ok, n_bad) in exit_covers.items():
+        if n_ok == 0 and n_bad > 0:
+            covers_bad.append('%s::every sampled normal exit has unsatisfiable hypotheses' % fnq)
     sentinel_fail = []
     sentinels_ok = 0
     for q, so in sentinels.items():
